@@ -28,7 +28,7 @@ RULE = ("one case = one generated (meminfo, zoneinfo|absent, vmstat|absent) trip
 ASSUMPTIONS = [
     "meminfo/zoneinfo/vmstat line formats transcribed from fs/proc/meminfo.c, mm/vmstat.c and compared with the live "
     "6.18 kernel; MemTotal and MemFree are always present (documented as mandatory)",
-    "SwapTotal/SwapFree and pswpin/pswpout appear or disappear pairwise (the kernel prints each pair under one config "
+    "SwapTotal/SwapFree usually appear or disappear pairwise (the kernel prints each pair under one config; 6% of the swap cases list only one, then both figures come from sysinfo(2)) "
     "option); the Linux 2.4 three-line 'total: used: free:' table that preceded the tagged lines is not generated",
     "magnitudes are capped at 2**40 kB so that every documented formula is exactly representable (< 2**53 bytes)",
     "where the statement only fixes a range (estimate outside [0,total] is 'forced into [0,total]') the range and the "
@@ -244,6 +244,10 @@ def gen_case(rng):
         st = _mag(rng, max(total, 1), prof if prof != "distorted" else "typical")
         sf = rng.randrange(0, st + 1) if rng.random() < 0.93 else st + rng.randrange(1, 1000)
         mem["SwapTotal"], mem["SwapFree"] = st, sf
+        if rng.random() < 0.06:
+            # a meminfo that lists only one line of the pair (a container runtime filtering what it shows): the two
+            # figures must still come from one and the same source
+            mem.pop(rng.choice(["SwapTotal", "SwapFree"]))
     zones = None
     if rng.random() < 0.8:
         n = rng.randrange(0, 7)
